@@ -151,4 +151,23 @@ META = {
         "level_note": "trusted: metadata oracle in vf/mon/storagemd.py; DataDirectory / FileSytemBackend only",
         "technique": "round-trip runtime oracle (written vs loaded rows, boundaries) + metadata/file consistency monitor over exhaustive configuration product per random input",
     },
+    "C05": {
+        "level_text": (
+            "The real strax.Mailbox and divide_outputs run under a cooperative deterministic scheduler (every "
+            "lock / condition / thread / future operation is a scheduling point, timeouts on a virtual clock): "
+            "for every small configuration (1..3 subscribers, 0..5 messages, capacity 1..4, lazy/eager, all "
+            "driver masks, plain values and futures completed by a concurrent worker, explicit numbering in "
+            "every permutation admitted by the capacity bound, dividers over 2-3 mailboxes incl. flow-freely "
+            "outputs) the default schedule and all schedules deviating from it at <= 1 (thorough: 2) decisions "
+            "are executed, plus seeded random and PCT schedules; each run is judged for exactly-once in-order "
+            "delivery to every subscriber, termination, no deadlock, no progress by virtual timeout (lost "
+            "wake-up) and the eager capacity bound (largest heap size observed at every push). A real-thread "
+            "pass with a 1 us switch interval re-checks delivery."
+        ),
+        "level_note": (
+            "trusted: vf/sched/coop.py reproduces RLock/Condition/Thread semantics; exhaustive only up to the "
+            "stated deviation bound; pre-emption at synchronisation operations only"
+        ),
+        "technique": "controlled-schedule runtime monitoring: cooperative deterministic scheduler with virtual time (systematic bounded deviations + random + PCT) and a history checker for exactly-once ordered delivery",
+    },
 }
